@@ -1,7 +1,7 @@
 (* C12 correspondence evaluator: runs the model on the harness' cases and reports disagreements with the
    implementation's observed behaviour. *)
 From Coq Require Import ZArith NArith List Bool.
-From OG Require Import C12.Model C12.Gen_Tokens C12.Inst.
+From OG Require Import C12.Model C12.Gen_Tokens C12.Inst C12.Regroup.
 Import ListNotations.
 Open Scope N_scope.
 
@@ -63,14 +63,18 @@ Record xcase := { c_src : option str; c_e : option expr; c_printed : str; c_re :
    3 scan (print_text e) differs from print_toks e            (model-internal lexical consistency, canonical e only)
    4 parse (scan printed) differs from the implementation's ParseExpr(printed)
    5 e is canonical (the theorem applies) but the implementation did not return e on re-parsing *)
-Definition check_case (nr dr : bool) (c : xcase) : list N :=
+(* pr: the working tree's BinaryExpr printer puts regrouped operands in parentheses (Regroup.fixp) *)
+Definition printed_tree (pr : bool) (e : expr) : expr := if pr then fixp Inst.prec e else e.
+
+Definition check_case (nr dr pr : bool) (c : xcase) : list N :=
   (match c_src c with
    | Some s => if oexpr_eqb (parse (scan s)) (c_e c) then [] else [1]
    | None => []
    end) ++
   match c_e c with
   | None => []
-  | Some e =>
+  | Some e0 =>
+      let e := printed_tree pr e0 in
       (if str_eqb (print_text_v nr dr e) (c_printed c) then [] else [2]) ++
       (if canon_v nr dr e then
          (if toks_eqb (scan (c_printed c)) (print_toks_v nr dr e) then [] else [3]) ++
@@ -79,16 +83,16 @@ Definition check_case (nr dr : bool) (c : xcase) : list N :=
       (if oexpr_eqb (parse (scan (c_printed c))) (c_re c) then [] else [4])
   end.
 
-Fixpoint mismatches_from (k : N) (nr dr : bool) (cs : list xcase) : list (N * list N) :=
+Fixpoint mismatches_from (k : N) (nr dr pr : bool) (cs : list xcase) : list (N * list N) :=
   match cs with
   | [] => []
-  | c :: r => match check_case nr dr c with
-              | [] => mismatches_from (k + 1) nr dr r
-              | l => (k, l) :: mismatches_from (k + 1) nr dr r
+  | c :: r => match check_case nr dr pr c with
+              | [] => mismatches_from (k + 1) nr dr pr r
+              | l => (k, l) :: mismatches_from (k + 1) nr dr pr r
               end
   end.
 Definition mismatches := mismatches_from 0.
 
 (* which cases are canonical (for the coverage statistics) *)
-Definition canon_flags (nr dr : bool) (cs : list xcase) : list bool :=
-  map (fun c => match c_e c with Some e => canon_v nr dr e | None => false end) cs.
+Definition canon_flags (nr dr pr : bool) (cs : list xcase) : list bool :=
+  map (fun c => match c_e c with Some e => canon_v nr dr (printed_tree pr e) | None => false end) cs.
